@@ -20,7 +20,8 @@ RULE = ("generated: intervals (forward / inverted / absolute) over Date, naive D
         "second pass, boundaries +-1us; start a few steps away on or off the grid that reaches the end; forward / inverted / swapped / absolute; fixed-length and wall-clock units; "
         "inside the Coq model: same dispatch entries, theorems range_mixed_zones_*), ends exactly reachable / one microsecond off, values next to 0001-01-01 and 9999-12-31; "
         "__iter__; `x in interval` for x at start/end +-1us, random x and x in other zones; every yielded x tested with `in`; single add/subtract calls with "
-        "amounts up to 12*10^4.  Result = interval start/end/invert after construction + every yielded (wall, fold, utcoffset) + how the iteration ended "
+        "amounts up to 12*10^4; fixed streams witness-inverted / witness-limit: the witnesses of the two repaired findings (inverted intervals of every kind with every value they yield, "
+        "their ends and the neighbours of the ends tested with `in`; intervals ending within one step of 9999-12-31 / 0001-01-01).  Result = interval start/end/invert after construction + every yielded (wall, fold, utcoffset) + how the iteration ended "
         "(long lists: first/last 20, length, sha256, first non-monotone index).  non-trivial = every distinct (interval, unit, step) or (interval, x) input.")
 EXHAUSTIVE = {"quick": False, "thorough": False}
 VM_SUBSET = 60
@@ -259,6 +260,48 @@ def _mixed_transition_cases(rnd, zs, big):
     return out
 
 
+def _witness_cases():
+    """inverted-interval-contains-nothing: interval(2020-01-10, 2020-01-05) and datetime / zone / mixed-zone siblings: every value the interval yields
+    (its own ends among them) is `in` it, the neighbours of the ends are not, an x inside expressed in a third zone is"""
+    out = []
+    day = lambda y, m, d_: (_dt.date(y, m, d_).toordinal() - 1) * T.US_DAY
+    hi, lo = day(2020, 1, 10), day(2020, 1, 5)
+    noon = 12 * 3600 * T.MEG
+    for kind, sa, sb, Ws, We in [(0, None, None, hi, lo), (1, None, None, hi + noon, lo + noon + 1), (2, "Europe/Paris", "Europe/Paris", hi + noon, lo + noon),
+                                 (2, "UTC", "UTC", hi, lo), (2, 19800, 19800, hi + noon, lo), (2, "America/New_York", "UTC", hi + noon, lo + noon),
+                                 (2, "Pacific/Apia", 3600, hi, lo + 1)]:
+        f = 1 if kind else 0
+        units = [(3, 1), (3, 2), (2, 1)] + ([(4, 7), (5, 90)] if kind else [(1, 1)])
+        for ab in (0, 1):
+            for unit, amount in units:
+                out.append(_range_case("witness-inverted", kind, sa, sb, Ws, f, We, f, ab, unit, amount))
+                out.append({"stream": "witness-inverted", "fn": "member", "args": [kind, sa, sb, Ws, f, We, f, ab, unit, amount, CAP_DEFAULT]})
+            out.append({"stream": "witness-inverted", "fn": "iter", "args": [kind, sa, sb, Ws, f, We, f, ab, 600]})
+            step = T.US_DAY if kind == 0 else 1
+            for Wx in (Ws, We, Ws + step, Ws - step, We + step, We - step, (Ws + We) // 2 - ((Ws + We) // 2) % step):
+                for sx in ([sa] if kind != 2 else [sa, sb, "Asia/Tokyo", -12600]):
+                    wx = Wx
+                    if kind == 2 and sx != sa:
+                        U = inst_of(sa, Wx, 1)
+                        wx = U + sx * T.MEG if isinstance(sx, int) else T.ref_render(_tz(sx), U)[0]
+                    out.append({"stream": "witness-inverted", "fn": "contains", "args": [kind, sa, sb, sx, Ws, f, We, f, ab, wx, f]})
+    # raises-at-calendar-limit: interval(9999-12-30, 9999-12-31).range('days') and siblings whose value after the last one is not representable:
+    # the iteration has to stop after the last value (it used to raise OverflowError / ValueError there)
+    top, sec = day(9999, 12, 31), T.MEG
+    for kind, spec, Ws, We, unit, amount in [(0, None, top - T.US_DAY, top, 3, 1), (0, None, top - 3 * T.US_DAY, top, 2, 1), (0, None, day(9999, 10, 31), top, 1, 1),
+                                             (0, None, day(9990, 2, 28), top, 0, 3), (0, None, day(1, 2, 1), 0, 1, 1), (0, None, day(1, 1, 3), 0, 3, 2), (0, None, day(4, 2, 29), 0, 0, 1),
+                                             (1, None, T.MAX_WALL - 3 * 3600 * sec, T.MAX_WALL, 4, 1), (1, None, T.MAX_WALL - 5, T.MAX_WALL, 7, 2), (1, None, T.MAX_WALL - 90 * sec, T.MAX_WALL - 1, 5, 1),
+                                             (1, None, 3 * 3600 * sec, 0, 4, 1), (1, None, 7, 0, 7, 3), (1, None, day(9999, 12, 1) + noon, T.MAX_WALL, 2, 1),
+                                             (2, "UTC", T.MAX_WALL - 3 * 3600 * sec, T.MAX_WALL, 4, 1), (2, "UTC", 2 * T.US_DAY, 0, 3, 1), (2, "UTC", T.MAX_WALL - 40 * T.US_DAY, T.MAX_WALL, 1, 1)]:
+        f = 1 if kind else 0
+        out.append(_range_case("witness-limit", kind, spec, spec, Ws, f, We, f, 0, unit, amount, 60))
+        out.append(_range_case("witness-limit", kind, spec, spec, We, f, Ws, f, 1, unit, amount, 60))
+        out.append({"stream": "witness-limit", "fn": "member", "args": [kind, spec, spec, Ws, f, We, f, 0, unit, amount, 60]})
+        if abs(We - Ws) < 500 * T.US_DAY:
+            out.append({"stream": "witness-limit", "fn": "iter", "args": [kind, spec, spec, Ws, f, We, f, 0, 600]})
+    return out
+
+
 def cases(tier, seed):
     rnd = random.Random(seed)
     out = []
@@ -453,6 +496,8 @@ def cases(tier, seed):
             if unit == 0:
                 k = min(k, 3000)
             out.append({"stream": "shift", "fn": "shift", "args": [kind, sa, Ws, fs, rnd.randrange(2), unit, k]})
+    # W: the witnesses of repaired findings stay as ordinary cases (they must pass the oracle now)
+    out += _witness_cases()
     # a FixedTimezone always stores fold 0
     for c in out:
         a = c["args"]
@@ -804,10 +849,8 @@ def oracle(c, backend, r):
         if r[0] != 0:
             return f"unexpected result {r}"
         Us, Ue, Ux = inst_of(sa, Ws, fs), inst_of(sb, We, fe), inst_of(sx, Wx, fx)
-        if ab and Us > Ue:
-            Us, Ue = Ue, Us
-        exp = int(Us <= Ux <= Ue)
-        return None if r[1] == exp else f"`x in interval` is {bool(r[1])}, start <= x <= end on instants is {bool(exp)}"
+        exp = int(min(Us, Ue) <= Ux <= max(Us, Ue))      # forward, absolute and inverted intervals alike: between the two ends
+        return None if r[1] == exp else f"`x in interval` is {bool(r[1])}, min(start, end) <= x <= max(start, end) on instants is {bool(exp)}"
     if fn == "member":
         if r[0] != 0:
             return f"unexpected result {r}"
@@ -830,7 +873,7 @@ def known(c, backend, r):
     fn, a = c["fn"], c["args"]
     if fn == "member":
         kind, sa, sb, Ws, fs, We, fe, ab = a[:8]
-        # inverted, non-absolute interval (and no ambiguity involved): start <= x <= end can never hold
+        # (repaired) inverted, non-absolute interval (and no ambiguity involved): with start <= x <= end nothing is `in` it, not even its own start
         if r[0] != 0 or r[2] >= 0:
             return None
         inv = inst_of(sa, Ws, fs) > inst_of(sb, We, fe)
@@ -851,6 +894,10 @@ def known(c, backend, r):
         kind, sa, sb, sx, Ws, fs, We, fe, ab, Wx, fx = a
         if kind == 2 and _fold_pair(sa, Ws, fs, sb, We, fe, sx, Wx, fx):
             return "same-zone-comparison-ignores-fold"
+        # (repaired) inverted, non-absolute interval: an x between the two ends is reported as not `in` it (start <= x <= end with start > end)
+        Us, Ue, Ux = inst_of(sa, Ws, fs), inst_of(sb, We, fe), inst_of(sx, Wx, fx)
+        if r[0] == 0 and r[1] == 0 and not ab and Us > Ue and Ue <= Ux <= Us:
+            return "inverted-interval-contains-nothing"
         return None
     if fn not in ("range", "iter"):
         return None
@@ -879,7 +926,7 @@ def known(c, backend, r):
             if g and g >= step:
                 return "skipped-day-repeats-value"
         return None
-    # (2) the next value is not representable: the generator raises instead of stopping
+    # (2) (repaired) the next value is not representable: the generator raises instead of stopping
     if tags == {"raise"}:
         exn = fails[0][2][1]
         nxt = expected_value(kind, s_spec, s_W, s_f, unit, sgn * len(exp) * amount)
@@ -915,12 +962,14 @@ def _fold_pair(sa, Ws, fs, sb, We, fe, sx=None, Wx=None, fx=None):
 
 LEVEL_TEXT = ("Machine-checked Coq theorems about the TRANSLATED Interval.range / __iter__ / __contains__ (regenerated from /repo on every run) for every interval, unit and step: "
               "the k-th yielded value is start.add(unit = k*step) computed from the start (loop invariant), the run yields exactly the prefix of that sequence up to the first element "
-              "beyond the end, every yielded value lies between start and end, the end is yielded iff reachable, `in` is start <= x <= end; strict monotonicity and termination for "
+              "beyond the end, every yielded value lies between start and end, the end is yielded iff reachable, `in` is min(start, end) <= x <= max(start, end) for forward, absolute "
+              "and inverted intervals (contains_spec, contains_min_max; every value an interval of dates / naive values / fixed offsets yields is `in` it: range_values_are_members_partial_plain); strict monotonicity and termination for "
               "dates, naive values, UTC/fixed offsets (all 8 units, every step >= 1, via strict monotonicity of month arithmetic with end-of-month clamping) and for every "
               "well-formed zone with the fixed-length units; for ends carrying different tzinfo objects (start in a zone, end in UTC / a fixed offset / another zone) and the fixed-length units the run "
               "yields exactly the indices whose instant start +- k*n units is not beyond the end's instant, the end is yielded iff its instant is on that grid, direction and `in` are decided by instants "
               "(range_mixed_zones_stop_by_instant / _exact / _end_reached, interval_direction_mixed_zones, contains_mixed_zones); "
-              "refutation of monotonicity for day stepping over a skipped day (Kiritimati witness).")
+              "the iteration never ends with OverflowError / ValueError: when the value after the last one is outside 0001-01-01 .. 9999-12-31 the run stops normally (range_stops_at_limit, "
+              "range_prefix, range_at_limit_witness); refutation of monotonicity for day stepping over a skipped day (Kiritimati witness).")
 DESIGN_REF = "DESIGN.md section 4 C19"
 LEVEL_NOTE = ("Trusted: Coq kernel+VM; translator subclass in tools/vlib/gens/g90_range.py; hand model Model/IntervalRange.v (ordering, add/subtract dispatch, Interval.__init__) and "
               "Model/TzConvert.v validated by correspondence; Spec/Zone.v as a model of zoneinfo; extraction cross-checked with vm_compute.")
